@@ -29,14 +29,16 @@ CHECKS = {
         note=TB + " CPython-level aliasing outside the inventoried carriers is covered only by the differential run; the "
              "write-site/escape counts are a syntactic (ast) approximation."),
     "C13": dict(
-        text="Universal theorems over all operation histories on a view and on views sliced from it to any depth: "
-             "confinement of every issued access to the issuing view (and of every view to its parent/allocation), "
-             "refinement of a fixed-length file seen through windows (values, error classes, warnings, final state), "
-             "read-after-write, truncation with warning, slice range semantics, death after close/free; refutation "
-             "theorems for the code as found (two escapes, slice-after-close) and for the SEEK_END sign (known finding). "
-             "Model tied to the real MemoryIO by exact correspondence on random histories against a recording fake "
-             "controller; an independent bytearray-file oracle decides the property on every history.",
-        ref="4 C13", technique="Coq proof (invariant over op histories + refinement to an abstract file) + vm_compute correspondence on histories",
+        text="Universal theorems over all operation histories on a view and on views sliced from it to any depth (incl. with "
+             "blocks, transfers during which the controller raises, TruncationWarning raised as an error, a failing free): "
+             "confinement of every access to the issuing view / allocation and memory outside untouched, refinement of a "
+             "fixed-length file seen through windows (values, error classes, warning iff bytes are cut, final state), truncation, "
+             "slice range, death after close/free/exit, failed transfers and failed free leave the state, the entry point "
+             "sdram_alloc_as_filelike; refutations for the code as found and the SEEK_END sign (known finding). Tie T: the model "
+             "calls the cursor/clamping arithmetic re-translated from the source on every run (tools/dump_c13.py, fail closed, "
+             "surrounding statements checked literally); tie C: exact correspondence on random histories; an independent "
+             "bytearray-file oracle decides every history under the default and the `error` warnings filter.",
+        ref="4 C13", technique="Coq proof (invariant over op histories + refinement to an abstract file) over kernels translated from source + vm_compute correspondence on histories",
         note=TB + " The machine controller's read/write are replaced by a recording fake (C07 covers them)."),
     "C01": dict(
         text="End to end for the models, per instance for real executions. Proved for all inputs: (i) the hardware delivery "
@@ -161,8 +163,13 @@ CHECKS = {
              "coordinate is the offset, spinn5_eth_coords lists exactly the in-range Ethernet chips once each, a link has an FPGA "
              "number iff it leaves its board and numbers are distinct, standard dimensions are the squarest factor pair -- stated about a Flocq binary64 model of the code: "
              "int(math.sqrt(k)) = Z.sqrt k is PROVED for every 0 <= k < 2^52. Finite "
-             "cells by vm_compute with the bound in the statement, lifted by proved mod lemmas. Whole-machine correspondence; "
-             "oracle builds the tiling explicitly.",
+             "cells by vm_compute with the bound in the statement, lifted by proved mod lemmas. Also proved: partially consumed "
+             "generators (next/break/`in`) yield distinct in-machine Ethernet chips; for numpy signed scalars (int8..int64, "
+             "non-negative arguments that fit) every fixed-width intermediate of the kernels, EXTRACTED from source, fits the dtype; "
+             "a budgeted loop evaluates the models on board counts up to 2^99. The three hand-modelled functions are pinned by an "
+             "ast digest and rig/geometry.py by a state inventory (fail closed). Whole-machine, history and threaded-search "
+             "streams; oracle builds the tiling explicitly. Outside: unsigned numpy scalars, ragged machines whose board's "
+             "Ethernet chip is absent.",
         ref="4 C19", technique="Coq proof (finite cell by computation + mod lifting) over dumped tables and py2v-translated kernels",
         note=TB + " The float theorems (Proofs/BoardSqrt.v) depend on the standard-library axioms of the Flocq/Reals chain "
              "(sig_forall_dec, sig_not_dec, functional_extensionality_dep, classic); all other C19 theorems are closed."),
